@@ -10,6 +10,21 @@ CLAIMED = {
   note="Trusted: Coq kernel, gen_constants.py, ExtrOcamlBasic extraction + driver.ml, the Rust harness; modelled: Rust integer semantics of u32/u64.",
   technique="Coq proof (invariant by induction over operation history) + checked model/implementation correspondence",
   ref="5.1"),
+ "C16": dict(
+  text="Coq theorems for all byte-valued basis/source and every block size 1..2^28: the literal byte count of the computed delta EQUALS that of the textbook greedy scan (so it is never larger), an identical source costs < one block, and the textbook scan resynchronises after any damaged region (|pre|+|tail| bound). The scan-side/signature-side weak checksum agreement is exactly C17's invariant. Tie: op-for-op comparison of implementation deltas (both engines, both profiles) with the extracted model plus an independent Rust greedy oracle.",
+  note="Trusted as C17, plus: BLAKE3 modelled as a quantified function assumed collision-free between basis blocks and source windows; the k+2-blocks clause is covered through the resynchronisation lemma (partial: arithmetic instantiation not a separate theorem).",
+  technique="Coq proof (loop invariant over the scan, induction on fuel) + checked correspondence",
+  ref="5.2"),
+ "C01": dict(
+  text="Coq theorems for all basis/source, every positive block size < 2^32 and every hash function that does not collide between basis blocks and source windows: patch(basis, delta(signature(basis), source)) = Ok(source) in both profiles; declared sizes/checksum are the source's, op lengths sum to the source size, every copy lies in the basis; the executed (extracted) scan equals the proved one. Tie: Sync trait, AsyncCopiaSync with fragmented reads, `copia signature|delta|patch` files and `copia sync` on generated triples, signatures and deltas compared op-for-op with the model and with each other.",
+  note="Trusted as C17, plus: BLAKE3 quantified (collision-freeness hypothesis), rayon/tokio library behaviour and the bincode file format are exercised by the tie, not proved (bincode model: C20).",
+  technique="Coq proof (denotation invariant of the scan loop) + checked correspondence incl. real binary",
+  ref="5.3"),
+ "C05": dict(
+  text="Coq theorems for ALL basis byte strings and ALL deltas (no well-formedness assumed): Ok(out) implies H(out) = delta.checksum; every copy of a successful patch read inside the actual basis; the shipped profile never panics and the checked profile panics exactly when op lengths do not sum to source_size; with a collision-free hash success means out = source. Tie: 16 corruption operators applied to valid pairs, through both engines/both profiles and `copia patch` under ulimit -v; outcome class and bytes compared with the model; independent BLAKE3 oracle.",
+  note="Trusted as C17, plus: seek/read_exact semantics modelled by a partial read; buffer allocation for hostile copy lengths is not modelled (observed under ulimit -v in the CLI runs).",
+  technique="Coq proof (case analysis on the patch outcome for arbitrary input) + checked correspondence",
+  ref="5.4"),
 }
 
 NA_REASON = "check not built yet in this session; see DESIGN.md section 5 for the planned model and theorems"
